@@ -571,5 +571,32 @@ def _parent_attr(root, node):
     return None
 
 
+def rule_t8(repo):
+    """real_norm (trust level 0) decides equations through util/poly.py.  p ^ 0 = 1 for every polynomial p,
+    the zero polynomial included (x ^ (0::nat) = 1 is a theorem): the exponent-zero case of Polynomial.__pow__ must be
+    decided before any other answer is given."""
+    res = RuleResult('C05.T8', 'the power of a polynomial decides the exponent 0 before any other case', floor=1)
+    f = repo.func('util/poly.py', 'Polynomial.__pow__')
+    exp = f.params()[1]
+    cfg = cfg_of(f.node)
+    tests = [t for t in cfg.test_nodes() if compare_parts(t.ast) and compare_parts(t.ast)[0] in (ast.Eq, ast.NotEq) and
+             is_name(compare_parts(t.ast)[1], exp) and isinstance(compare_parts(t.ast)[2], ast.Constant) and compare_parts(t.ast)[2].value == 0]
+    need(tests, 'Polynomial.__pow__: test of the exponent against 0 not found')
+    t = tests[0]
+    zero_side = 'true' if compare_parts(t.ast)[0] is ast.Eq else 'false'
+    other_side = 'false' if zero_side == 'true' else 'true'
+    bad = []
+    for r in cfg.return_nodes():
+        # reachable without passing the test at all
+        if cfg.path_avoiding(r, skip_nodes=[t]) is not None:
+            bad.append('line %d `%s` is reached without the test `%s`' % (r.lineno, src(r.ast, 40), src(t.ast, 20)))
+    unit = [r for r in cfg.return_nodes() if r.id in cfg.reach_from([b for b, l in t.succ if l == zero_side], skip_edges=[(t.id, other_side)])]
+    res.add('util/poly.py :: Polynomial.__pow__ :: exponent-zero-first', not bad,
+            'every answer is given behind the test `%s`' % src(t.ast, 20) if not bad else
+            '; '.join(bad) + ' -- for the exponent 0 the answer is not the unit polynomial: real_norm accepts (y - y) ^ (0::nat) = 0, and with '
+            'x ^ (0::nat) = 1 the checker accepts 1 = 0', f.loc)
+    return res
+
+
 def rules(repo):
-    return [rule_t1(repo), rule_t2(repo), rule_t3(repo), rule_t4(repo), rule_t5(repo), rule_t6(repo), rule_t7(repo)]
+    return [rule_t1(repo), rule_t2(repo), rule_t3(repo), rule_t4(repo), rule_t5(repo), rule_t6(repo), rule_t7(repo), rule_t8(repo)]
